@@ -343,6 +343,32 @@ def run(tier, seed, replay):
                     if np.abs(vals - Wsum[k]).max() > 1e-12 or abs(Wrep[k] - Wsum[k]) > 1e-12:
                         v(f"feedback-wiener:{which}:{method}", f"the Wiener process seen by a feedback coefficient at t={0.1 * k:.1f} is {sorted(set(np.round(vals, 6).tolist()))}, the sum of the reported increments up to that time is {Wsum[k]:.6f} ({cfg})", cfg)
                         break
+    # ------------------------------------------------------------------ an output interval shorter than half a step is skipped (documented, with a warning):
+    # the records keep one entry per monitored operator for it, the increment is zero and the state is unchanged
+    for which, methods in (("sme", sme_methods), ("sse", sse_methods)):
+        for method in methods:
+            for het in (False, True):
+                cfg = {"eq": which, "method": method, "heterodyne": het, "n_sc": 2, "tlist": [0, 0.004, 0.1, 0.2]}
+                try:
+                    with warnings.catch_warnings():
+                        warnings.simplefilter("ignore")
+                        with core.time_limit(240):
+                            sk, st, _ = make(which, method, het, 2, False, 0.1)
+                            rk = sk.run(st, [0, 0.004, 0.1, 0.2], ntraj=1, seeds=int(rng.integers(1 << 30)))
+                            dWk = np.asarray(rk.dW[0])
+                            Mk = np.asarray(rk.measurement[0])
+                except core.CaseTimeout:
+                    raise
+                except Exception as e:
+                    v(f"skipped-step-raises:{which}:{method}", f"a run whose first output interval is shorter than half a step raises for {cfg}: {type(e).__name__}: {e}"[:240], cfg)
+                    continue
+                rep.evaluations += 1
+                rep.count("skipped-step")
+                want_shape = (2, 2, 3) if het else (2, 3)
+                if dWk.shape != want_shape or Mk.shape != want_shape:
+                    v(f"skipped-step-shape:{which}:{method}", f"records of a run with a skipped interval have shapes {dWk.shape} / {Mk.shape}, expected {want_shape} ({cfg})", cfg)
+                elif np.abs(dWk[..., 0]).max() != 0 or maxdiff([rk.runs_states[0][1]], [rk.runs_states[0][0]]) > 0:
+                    v(f"skipped-step-record:{which}:{method}", f"a skipped interval reports a non-zero increment or a changed state ({cfg})", cfg)
     # ------------------------------------------------------------------ unevenly spaced output times: the reported records stay consistent
     uneven = np.array([0.0, 0.1, 0.15, 0.4, 0.5, 0.8])
     for which, methods in (("sme", sme_methods), ("sse", sse_methods)):
